@@ -100,6 +100,19 @@ def execute(mat, ctx):
     V, M = gen.generic_classes(mat["enzyme"])
     specs = [mat["vector"]] + list(mat["modules"])
     shared = [gen.make_record(s) for s in specs]          # the shared record objects of this history
+    # annotation values assigned after construction, in spellings the library accepts (it lower-cases before comparing)
+    rt = gen.rng_for(PROP, "late-annotations", mat["vector"]["seq"][:24], len(specs))
+    late = [rt.choice([None, None, "Circular", "CIRCULAR", "circular"]) for _ in specs]
+
+    def respell(recs):
+        for r, t in zip(recs, late):
+            if t is not None:
+                r.annotations["topology"] = t
+        return recs
+
+    respell(shared)
+    if any(t not in (None, "circular") for t in late):
+        ctx.count("c07_cases_with_capitalised_topology")
     has_cit = any("citation" in f["quals"] for s in specs for f in s["features"])
     has_feat = any(s["features"] for s in specs)
     if has_cit:
@@ -107,7 +120,7 @@ def execute(mat, ctx):
     ents = lambda recs: (V(recs[0]), [M(r) for r in recs[1:]])
 
     # reference outcome: a first call on fresh deep copies
-    fresh = [gen.make_record(s) for s in specs]
+    fresh = respell([gen.make_record(s) for s in specs])
     v0, m0 = ents(fresh)
     ref_sig = _call(v0, m0, {"scenario": "reference-on-fresh-copies"})
     ctx.count("evaluations")
